@@ -35,6 +35,13 @@ type timerRig struct {
 	got    chan *interfaces.ElectionTrigger
 	stopRd chan struct{}
 	held   int
+	defer_ bool           // the reader queues what it receives; "act" operations process the queue later
+	queue  []heldTrigger
+}
+
+type heldTrigger struct {
+	tr *interfaces.ElectionTrigger
+	hv hv // the pair it carried when it was delivered
 }
 
 func genTimerConfig(ch *Chooser, prop, tier string, disabled map[string]bool) *RunConfig {
@@ -96,6 +103,11 @@ func (r *timerRig) startReader() {
 		for {
 			select {
 			case tr := <-ch:
+				if r.defer_ {
+					// the consumer keeps what it received (the worker's buffered election slot) and reads it again later
+					x := hv{uint64(tr.Hv.Height()), uint64(tr.Hv.View())}
+					r.queue = append(r.queue, heldTrigger{tr, x})
+				}
 				r.onTrigger(tr)
 			case <-stop:
 				return
@@ -109,6 +121,22 @@ func (r *timerRig) stopReader() {
 		close(r.stopRd)
 		r.reader = false
 	}
+}
+
+// actOnQueued: the consumer of the election channel (the main loop hands triggers to a buffered slot of the worker)
+// gets round to a trigger it took earlier. A delivered trigger carries exactly the pair it was armed for - still.
+func (r *timerRig) actOnQueued() {
+	if len(r.queue) == 0 {
+		return
+	}
+	q := r.queue[0]
+	r.queue = r.queue[1:]
+	now := hv{uint64(q.tr.Hv.Height()), uint64(q.tr.Hv.View())}
+	if now != q.hv {
+		r.w.violate("C19", "trigger-changed-after-delivery", "the trigger delivered for (h%d,v%d) reads (h%d,v%d) when its consumer gets round to it", q.hv.h, q.hv.v, now.h, now.v)
+		return
+	}
+	r.w.probe("kept-trigger-read-again")
 }
 
 func (r *timerRig) onTrigger(tr *interfaces.ElectionTrigger) {
@@ -149,6 +177,7 @@ func (r *timerRig) onTrigger(tr *interfaces.ElectionTrigger) {
 
 func RunTimerComp(w *World) {
 	r := &timerRig{w: w}
+	r.defer_ = w.ch.Pick("deferred-reader", 3) == 2
 	w.enableYields()
 	r.base = []time.Duration{time.Millisecond, 100 * time.Millisecond, time.Second, 4 * time.Second, time.Minute}[w.ch.Pick("base", 5)]
 	r.t = Electiontrigger.NewTimerBasedElectionTrigger(r.base, nil)
@@ -175,6 +204,11 @@ func RunTimerComp(w *World) {
 		simWait()
 		w.settleYields(keep)
 		w.syncClock()
+		if r.defer_ && len(r.queue) > 0 && w.ch.Pick("act-on-queued", 3) == 2 {
+			w.action("act-on-queued")
+			r.actOnQueued()
+			continue
+		}
 		switch op := w.ch.Pick("op", 11); {
 		case op == 10: // preempt the next goroutine of the timer at one of its synchronisation points
 			if w.ys.arm == nil {
